@@ -1332,6 +1332,47 @@ class Lowerer:
                 s += self.line(n) + I + '{\n' + self.ind(d + 1) + '%s %s = %s;\n' % (self.cty(vt), vname, v)
                 s += self.block(body, d + 1) + I + '}\n'
             return s
+        # range-for over a container whose begin()/end() lower to raw pointers (VecView, Vec, std::vector):
+        #   for (T* it = begin(c), *e = end(c); it != e; ++it) { decl p = *it; body }
+        rt = self.ty(rv['type']).noref()
+        rkey = rt.key or ''
+        if rt.kind == 'rec' and (rkey.startswith('std::vector<') or 'VecView<' in rkey or 'Vec<' in rkey):
+            f = self.cur
+            lid = f.loops
+            f.loops += 1
+            cexpr = init
+            et = None
+            if rkey.startswith('std::vector<'):
+                self.need_record(rt)
+                et = self.parse_type(split_top(rkey[len('std::vector<'):-1])[0])
+                base = self.addr(cexpr)
+                b = '(%s)->_data' % base
+                en = '((%s)->_data + (%s)->_size)' % (base, base)
+            else:
+                self.need_record(rt)
+                m = re.search(r'Vec(?:View)?<(.*)>$', rkey)
+                et = self.parse_type(split_top(m.group(1))[0])
+                base = self.addr(cexpr)
+                view = '(%s)' % base if 'VecView<' in rkey else '(&(%s)->_base0)' % base
+                b = '%s->ptr_' % view
+                en = '(%s->ptr_ + %s->size_)' % (view, view)
+            ect = self.cty(et)
+            vt = self.ty(loopvar['type'])
+            vname = loopvar['name']
+            f.names[loopvar['id']] = vname
+            self.note('range-for over %s lowered to a pointer loop at %s' % (rkey, where(n)))
+            s = I + '{\n'
+            s += self.ind(d + 1) + '%s* __it%d = %s; %s* __end%d = %s;\n' % (ect, lid, b, ect, lid, en)
+            s += self.line(n) + self.ind(d + 1) + 'for (; __it%d != __end%d; ++__it%d)\n' % (lid, lid, lid)
+            s += self.ind(d + 1) + 'LOOPSPEC_%s_%d\n' % (f.cname, lid)
+            s += self.ind(d + 1) + '{\n'
+            if vt.kind == 'ref':
+                f.refvars.add(loopvar['id'])
+                s += self.ind(d + 2) + '%s* %s = __it%d;\n' % (ect, vname, lid)
+            else:
+                s += self.ind(d + 2) + '%s %s = *__it%d;\n' % (self.cty(vt), vname, lid)
+            s += self.block(body, d + 2) + self.ind(d + 1) + '}\n' + I + '}\n'
+            return s
         raise Unsupported('range-for over non-literal range at %s' % where(n))
 
     def init_list_exprs(self, e):
